@@ -2,7 +2,7 @@
 in-memory stream, also under a custom field-name mapping used for both saving and loading.
 
 Real code: handle_save_events, save_pv_event_stream_to_file (otel_to_pv.py), pv_job_file_to_event_sequence,
-pv_job_files_to_event_sequence_streams (pv_to_puml.py), transform_dict_into_pv_event (pv_event_simulator.py).
+pv_files_to_pv_streams, pv_job_files_to_event_sequence_streams (pv_to_puml.py), transform_dict_into_pv_event (pv_event_simulator.py).
 File I/O is replaced by an in-memory file system (open / os.makedirs of the two modules).
 Symbolic: which name three of the fields are mapped to (incl. names that are other fields' default names:
 swaps and chains), whether values are empty / equal to key names, number of predecessor links."""
@@ -56,7 +56,7 @@ def mapping(m0: int, m1: int, m2: int, rest_fresh: bool) -> Optional[PVEventMapp
 
 def traces(app_empty: int, type_is_key: int, nprev: int) -> list[list[PVEvent]]:
     app = "" if app_empty else "app"
-    typ = "jobName" if type_is_key else "T1"
+    typ = ["T1", "jobName", " T1 ", ""][type_is_key]   # ordinary / equal to a key name / whitespace padded / empty
     t1 = [PVEvent(jobId="j1", eventId="e1", timestamp="2024-01-01T00:00:00.000000Z", previousEventIds=[],
                   applicationName=app, jobName="wf", eventType=typ),
           PVEvent(jobId="j1", eventId="e2", timestamp="2024-01-01T00:00:01.000000Z", previousEventIds=["e1", "e0"][:nprev],
@@ -88,7 +88,10 @@ def roundtrip(mc: Optional[PVEventMappingConfig], trs: list[list[PVEvent]]) -> O
             return f"files written: {paths}"
         try:
             kwargs = {} if mc is None else {"mapping_config": mc}
-            loaded = list(pvp.pv_job_files_to_event_sequence_streams(paths, **kwargs))
+            streams = list(pvp.pv_files_to_pv_streams(file_list=paths, job_name="wf", **kwargs))   # what pv2puml -fp ... does
+            if len(streams) != 1 or streams[0][0] != "wf":
+                return f"pv_files_to_pv_streams yielded {[n for n, _ in streams]}"
+            loaded = list(streams[0][1])
         except Exception as e:  # noqa
             return f"loading the saved files raised {type(e).__name__}: {e}"
         want = [[dict(e) for e in t] for t in trs]
@@ -112,7 +115,7 @@ def roundtrip(mc: Optional[PVEventMappingConfig], trs: list[list[PVEvent]]) -> O
 def check(m0: int, m1: int, m2: int, app_empty: int, type_is_key: int, nprev: int) -> bool:
     """
     pre: 0 <= m0 < 4 and 0 <= m1 < 4 and 0 <= m2 < 4 and m0 != m1 and m1 != m2 and m0 != m2
-    pre: app_empty in (0, 1) and type_is_key in (0, 1) and 0 <= nprev <= 2 and m0 == CFG.get("m0", m0)
+    pre: app_empty in (0, 1) and 0 <= type_is_key <= 3 and 0 <= nprev <= 2 and m0 == CFG.get("m0", m0)
     post: _
     """
     path_tick()
@@ -126,7 +129,7 @@ def check(m0: int, m1: int, m2: int, app_empty: int, type_is_key: int, nprev: in
 def twin(m0: int, m1: int, m2: int, app_empty: int, type_is_key: int, nprev: int) -> bool:
     """
     pre: 0 <= m0 < 4 and 0 <= m1 < 4 and 0 <= m2 < 4 and m0 != m1 and m1 != m2 and m0 != m2
-    pre: app_empty in (0, 1) and type_is_key in (0, 1) and 0 <= nprev <= 2
+    pre: app_empty in (0, 1) and 0 <= type_is_key <= 3 and 0 <= nprev <= 2
     post: not _
     """
     return check(m0, m1, m2, app_empty, type_is_key, nprev)
